@@ -120,13 +120,14 @@ func (calc *AreaCentroidCalculator) addShell(pts []float64) {
 	isPositiveArea := !IsRingCounterClockwise(calc.layout, pts)
 	p1 := geom.Coord{0, 0}
 	p2 := geom.Coord{0, 0}
+	basePt := ringBasePoint(pts)
 
 	for i := 0; i < len(pts)-stride; i += stride {
 		p1[0] = pts[i]
 		p1[1] = pts[i+1]
 		p2[0] = pts[i+stride]
 		p2[1] = pts[i+stride+1]
-		calc.addTriangle(calc.basePt, p1, p2, isPositiveArea)
+		calc.addTriangle(basePt, p1, p2, isPositiveArea)
 	}
 	calc.addLinearSegments(pts)
 }
@@ -137,15 +138,28 @@ func (calc *AreaCentroidCalculator) addHole(pts []float64) {
 	isPositiveArea := IsRingCounterClockwise(calc.layout, pts)
 	p1 := geom.Coord{0, 0}
 	p2 := geom.Coord{0, 0}
+	basePt := ringBasePoint(pts)
 
 	for i := 0; i < len(pts)-stride; i += stride {
 		p1[0] = pts[i]
 		p1[1] = pts[i+1]
 		p2[0] = pts[i+stride]
 		p2[1] = pts[i+stride+1]
-		calc.addTriangle(calc.basePt, p1, p2, isPositiveArea)
+		calc.addTriangle(basePt, p1, p2, isPositiveArea)
 	}
 	calc.addLinearSegments(pts)
+}
+
+// ringBasePoint returns the apex of the triangle fan of a ring: the ring's own
+// first vertex. The signed triangles of a closed ring add up to the same area
+// and first moments about any apex, but the area of a triangle whose apex is
+// far away is a small difference of large products, so a common apex for all
+// rings loses the area of a small ring far from it to rounding.
+func ringBasePoint(pts []float64) geom.Coord {
+	if len(pts) < 2 {
+		return geom.Coord{0, 0}
+	}
+	return geom.Coord{pts[0], pts[1]}
 }
 
 func (calc *AreaCentroidCalculator) addTriangle(p0, p1, p2 geom.Coord, isPositiveArea bool) {
